@@ -289,6 +289,33 @@ def replay_activation(fl, FA, method="General", vals=None, seed=0, budget=400, *
             return {"failed": True, "expected": {"terms": exp_terms, "triggered": exp_flags, "degrees": exp_deg},
                     "observed": {"terms": got_terms, "triggered": got_flags, "degrees": got_deg}, "cases": cases,
                     "call": f"{method}({params}).activate(block) with rule degrees {degs}, loaded {loaded}, enabled {enabled}" + (" (each rule concludes the disabled variable d first: `then d is q and y is c_i`)" if two else "")}
+    # chained rules (one-pass methods): a rule whose antecedent reads the output variable sees the contributions of the rules evaluated before it
+    if method in ("General", "First", "Last", "Threshold"):
+        for x0, x2 in ((0.75, 0.5), (0.5, 0.25), (0.0, 0.5)):
+            ins = [fl.InputVariable(name=f"x{i}", minimum=0.0, maximum=1.0, terms=[fl.Ramp("up", 0.0, 1.0)]) for i in range(3)]
+            out = fl.OutputVariable(name="y", minimum=0.0, maximum=10.0, aggregation=fl.Maximum(), defuzzifier=fl.WeightedAverage(), terms=[fl.Constant(f"c{i}", float(i + 1)) for i in range(3)])
+            act = {"General": fl.General, "First": lambda: fl.First(2, 0.0), "Last": lambda: fl.Last(2, 0.0), "Threshold": lambda: fl.Threshold(">", 0.0)}[method]()
+            rb = fl.RuleBlock(name="rb", conjunction=None, disjunction=None, implication=None, activation=act,
+                              rules=[fl.Rule.create("if x0 is up then y is c0"), fl.Rule.create("if y is c0 then y is c1"), fl.Rule.create("if x2 is up then y is c2")])
+            e = fl.Engine(name="w", input_variables=ins, output_variables=[out], rule_blocks=[rb])
+            ins[0].value, ins[1].value, ins[2].value = x0, 0.0, x2
+            out.fuzzy.clear()
+            rb.activate()
+            cases += 1
+            order = [2, 1, 0] if method == "Last" else [0, 1, 2]
+            seen_c0, exp_terms, count = 0.0, [], 0
+            for i in order:
+                d = [x0, seen_c0, x2][i]
+                sel = {"General": True, "First": count < 2 and d > 0, "Last": count < 2 and d > 0, "Threshold": d > 0}[method]
+                if sel:
+                    count += 1
+                    exp_terms.append((f"c{i}", d))
+                    if i == 0:
+                        seen_c0 = max(seen_c0, d)
+            got_terms = [(a.term.name, float(a.degree)) for a in out.fuzzy.terms]
+            if got_terms != exp_terms:
+                return {"failed": True, "expected": exp_terms, "observed": got_terms, "cases": cases,
+                        "call": f"{act} on rules ['if x0 is up then y is c0', 'if y is c0 then y is c1', 'if x2 is up then y is c2'] with x0={x0}, x2={x2}: the second rule reads what the rules evaluated before it concluded"}
     # vector-incapable methods reject batches
     if method != "General":
         ins = [fl.InputVariable(name="x0", minimum=0.0, maximum=1.0, terms=[fl.Ramp("up", 0.0, 1.0)])]
